@@ -12,6 +12,7 @@ mod orders;
 mod seq;
 mod entry;
 mod iso;
+mod front;
 
 fn main() {
     let args: Vec<String> = std::env::args().collect();
@@ -29,6 +30,7 @@ fn main() {
         "seq" => seq::main(&rest),
         "entry" => entry::main(&rest),
         "iso" => iso::main(&rest),
+        "front" => front::main(&rest),
         _ => {
             eprintln!("usage: th <engine> <args..>");
             2
